@@ -42,6 +42,88 @@ func stripPos(d []string) []string {
 	return out
 }
 
+const multiBody = `container ca { uses la:g; leaf x { type la:t; } } container cb { uses lb:g; leaf x { type lb:t; } } container cc { uses lc:g; leaf x { type lc:t; } }`
+
+// libLeaf: the leaf that grouping g of each revision of lib holds, and the kind of its typedef t.
+var libLeaf = map[string][2]string{
+	"lib@2019-01-01.yang": {"from2019", "int8"},
+	"lib@2020-02-02.yang": {"from2020", "string"},
+	"lib.yang":            {"fromnorev", "boolean"},
+}
+
+// multiOracle: the property's own reading of the modules multi / multi2 (Go side, independent of the
+// model): the statement with revision-date R denotes lib@R when that revision is loaded, the one
+// without revision-date the latest revision loaded; what `uses pfx:g` expands to and what `type pfx:t`
+// resolves to is that revision's.  "" when the dump agrees (or holds errors / no such module).
+func multiOracle(c rescorr.Case, dump []string) string {
+	loaded := map[string]bool{}
+	for _, n := range c.Names {
+		loaded[n] = true
+	}
+	latest := ""
+	for _, n := range []string{"lib.yang", "lib@2019-01-01.yang", "lib@2020-02-02.yang"} {
+		if loaded[n] {
+			latest = n
+		}
+	}
+	want := map[string]string{"cc": latest}
+	if loaded["lib@2020-02-02.yang"] {
+		want["ca"] = "lib@2020-02-02.yang"
+	}
+	if loaded["lib@2019-01-01.yang"] {
+		want["cb"] = "lib@2019-01-01.yang"
+	}
+	stmt := map[string]string{"ca": "import lib { prefix la; revision-date 2020-02-02; }", "cb": "import lib { prefix lb; revision-date 2019-01-01; }", "cc": "import lib { prefix lc; } (no revision-date)"}
+	for _, mod := range []string{"multi", "multi2"} {
+		if !loaded[mod+".yang"] || rescorr.HasErrors(dump) {
+			continue
+		}
+		for _, cn := range []string{"ca", "cb", "cc"} {
+			w := want[cn]
+			if w == "" {
+				continue // the revision asked for is not loaded: the property is silent
+			}
+			var kids []string
+			typ := ""
+			pre := "/" + mod + "/" + cn + "/"
+			for _, r := range dump {
+				fs := strings.Fields(r)
+				if len(fs) < 3 || fs[0] != "N" {
+					continue
+				}
+				mb, _ := lib.UnHex(fs[1])
+				pb, err := lib.UnHex(fs[2])
+				if err != nil {
+					pb = []byte(fs[2])
+				}
+				if string(mb) != mod || !strings.HasPrefix(string(pb), pre) {
+					continue
+				}
+				k := strings.TrimPrefix(string(pb), pre)
+				if k == "x" {
+					for _, kv := range fs[3:] {
+						if strings.HasPrefix(kv, "type=") {
+							typ = kv
+							if b, err := lib.UnHex(strings.TrimPrefix(kv, "type=")); err == nil {
+								typ = string(b) // {k=<kind>;n=<hex name>;...}
+							}
+						}
+					}
+					continue
+				}
+				kids = append(kids, k)
+			}
+			if len(kids) != 1 || kids[0] != libLeaf[w][0] {
+				return fmt.Sprintf("module %s, statement `%s`: `uses %s:g` in container %s expanded to %v, the grouping of %s holds leaf %s", mod, stmt[cn], "l"+cn[1:], cn, kids, strings.TrimSuffix(w, ".yang"), libLeaf[w][0])
+			}
+			if !strings.Contains(typ, "k="+libLeaf[w][1]+";") {
+				return fmt.Sprintf("module %s, statement `%s`: `type %s:t` resolved to %s, the typedef of %s is %s", mod, stmt[cn], "l"+cn[1:], typ, strings.TrimSuffix(w, ".yang"), libLeaf[w][1])
+			}
+		}
+	}
+	return ""
+}
+
 // family builds the revision family: batch cases (one per file subset) and, for each, every
 // permutation with every intermediate Process() position.
 func family() (batch, incr []rescorr.Case) {
@@ -54,6 +136,11 @@ func family() (batch, incr []rescorr.Case) {
 		"own.yang":            `module own { namespace "urn:own"; prefix o; include sub; container c { uses sg; } }`,
 		"sub@2019-01-01.yang": `submodule sub { belongs-to own { prefix o; } revision 2019-01-01; grouping sg { leaf s2019 { type string; } } }`,
 		"sub@2021-01-01.yang": `submodule sub { belongs-to own { prefix o; } revision 2021-01-01; grouping sg { leaf s2021 { type string; } } }`,
+		// one module with several import statements of ONE module name (RFC 7950 7.1.5: "multiple revisions of the
+		// same module can be imported, provided that different prefixes are used"): every statement denotes its own
+		// revision (seeded change C13-m21 linked the imports of a module once per module NAME); two statement orders
+		"multi.yang": `module multi { yang-version 1.1; namespace "urn:multi"; prefix mu; import lib { prefix la; revision-date 2020-02-02; } import lib { prefix lb; revision-date 2019-01-01; } import lib { prefix lc; } ` + multiBody + ` }`,
+		"multi2.yang": `module multi2 { yang-version 1.1; namespace "urn:multi2"; prefix mu; import lib { prefix lb; revision-date 2019-01-01; } import lib { prefix lc; } import lib { prefix la; revision-date 2020-02-02; } ` + multiBody + ` }`,
 	}
 	subsets := [][]string{
 		{"lib@2019-01-01.yang", "lib@2020-02-02.yang", "user.yang"},
@@ -62,6 +149,10 @@ func family() (batch, incr []rescorr.Case) {
 		{"lib@2019-01-01.yang", "lib@2020-02-02.yang", "lib.yang", "user.yang"},
 		{"own.yang", "sub@2019-01-01.yang", "sub@2021-01-01.yang"},
 		{"lib@2020-02-02.yang", "user.yang", "own.yang", "sub@2021-01-01.yang"},
+		{"lib@2019-01-01.yang", "lib@2020-02-02.yang", "multi.yang"},
+		{"lib@2019-01-01.yang", "lib@2020-02-02.yang", "multi2.yang"},
+		{"lib@2019-01-01.yang", "lib.yang", "multi.yang"}, // 2020-02-02 is not loaded: that statement falls back to the bare name
+		{"lib@2019-01-01.yang", "lib@2020-02-02.yang", "lib.yang", "multi2.yang"},
 	}
 	var permute func(a []string, k int, out *[][]string)
 	permute = func(a []string, k int, out *[][]string) {
@@ -411,6 +502,11 @@ func main() {
 			continue
 		}
 		famCompared++
+		if why := multiOracle(io.Case, io.Go.Dump); why != "" {
+			res.AddDisagreement(lib.Disagreement{Kind: "spec", Input: io.Case, Go: lib.Project(io.Go.Dump, keys, true), SpecVerdict: "violates",
+				What: "C13 `an import with a revision-date denotes exactly that revision when it is loaded, an import without revision-date the latest` fails per import statement: " + why, Replay: io.Case})
+			continue
+		}
 		gi := lib.Project(io.Go.Dump, keys, true)
 		gb := lib.Project(b.Go.Dump, keys, true)
 		if d := rescorr.Diff(gi, gb); d != "" {
